@@ -12,9 +12,12 @@ if ! git -C $WT apply /verif/seeded/$S/patch.diff 2>/dev/null; then
   echo "SEED $S: patch does not apply to current /repo HEAD"; git -C /repo worktree remove --force $WT; exit 3
 fi
 (cd $WT && GOFLAGS=-mod=mod GOPROXY=off GOSUMDB=off GOTOOLCHAIN=local go build ./... ) || { echo "SEED $S: does not compile"; git -C /repo worktree remove --force $WT; exit 3; }
+# one seeded run per property at a time: the evidence file is saved and restored around it
+exec 8>build/try_$C.lock; flock 8
 cp evidence/$C.json build/evidence_$C.keep 2>/dev/null
 VERIF_REPO=$WT ./check $C --tier $T > build/seed_$S.log 2>&1; rc=$?
 cp build/evidence_$C.keep evidence/$C.json 2>/dev/null
+flock -u 8
 ( flock 9; git checkout -q -- harness/go.mod ) 9>build/gobuild.lock
 git -C /repo worktree remove --force $WT
 grep -E "^VIOLATION|^$C " build/seed_$S.log | head -4
